@@ -207,6 +207,13 @@ func (w *World) Step(bo *BlockOp) bool {
 	h := w.TM.Next
 	b := &BlockCtx{Height: h, Op: bo, Prev: w.Prev, Voters: len(w.TM.Voters())}
 	b.Req = BlockReq{Height: h, Time: w.TM.Now, Votes: w.TM.Votes(bo), Evidence: w.TM.Evidence(bo, w.Prev)}
+	if bo.TimeBack > 0 {
+		b.Req.Time = w.TM.Now.Add(-time.Duration(bo.TimeBack) * time.Second)
+		w.Fault("non_monotone_time")
+	}
+	if bo.DupVote || len(bo.ExtraVotes) > 0 {
+		w.Fault("hostile_vote_set")
+	}
 	if len(b.Req.Evidence) > 0 {
 		w.Fault("evidence")
 	}
